@@ -71,6 +71,18 @@ func c04Gen(t *rapid.T) c04Case {
 			c.Actions = append(c.Actions, c04Action{Op: "sign", Key: rapid.SampledFrom(names).Draw(t, "key")})
 		}
 	}
+	if rapid.IntRange(0, 7).Draw(t, "resign") == 0 {
+		// the owner signs, revises, signs again with the same key, and the file goes through a loader
+		k := rapid.SampledFrom(names).Draw(t, "resignkey")
+		op := "reload"
+		if c.Wrapper == "legacy" && rapid.Bool().Draw(t, "resigndeprecated") {
+			op = "reload-deprecated"
+		}
+		c.Actions = append([]c04Action{{Op: "sign", Key: k}, {Op: "mutate", Key: rapid.SampledFrom([]string{"map", "text", "both"}).Draw(t, "resignmutation")}, {Op: "sign", Key: k}, {Op: op}}, c.Actions...)
+		if len(c.Actions) > maxLen+2 {
+			c.Actions = c.Actions[:maxLen+2]
+		}
+	}
 	c.Probe = c04Probe{
 		Kind:  rapid.SampledFrom([]string{"none", "payload", "payload", "sigbyte", "sigbyte", "keyid", "pubswap", "dropsig", "ptype"}).Draw(t, "probe"),
 		A:     rapid.IntRange(0, 1<<16).Draw(t, "pa"),
@@ -380,6 +392,17 @@ func c04Run(c c04Case, r *hx.Rec) error {
 				}
 			}
 			r.Label("stranger-under-abbreviated-keyid")
+			// ... nor has a key object with the stranger's public part that carries the signer's key id and
+			// (an attachment, not the key) the signer's certificate
+			if signer := hx.PoolKey(name); signer.Type == stranger.Type {
+				key := stranger.Pub()
+				key.KeyID = id
+				key.KeyVal.Certificate = hx.SelfSignedPEM(signer)
+				if err := md.VerifySignature(key); err == nil {
+					return fmt.Errorf("VerifySignature succeeds for a key object with the public key of %s, the key id of %s and the certificate of %s: the metadata is signed by %s only", stranger.Name, name, name, name)
+				}
+				r.Label("stranger-with-the-signers-certificate")
+			}
 			break
 		}
 	}
